@@ -21,7 +21,7 @@
 (*                           api-*: WithUIPath ("" = not given)             *)
 (*        doc      : bytes   Spec: WithSpecDocument ("" = not given)        *)
 (*        specurl  : [kind : "default" | "abspath" | "absurl" | "relative", *)
-(*                    dirs : Seq(bytes), doc : bytes]                       *)
+(*                    dirs : Seq(bytes), doc : bytes, host, query : bytes]  *)
 (*                           the UI's SpecURL option, structured            *)
 (*        oauthurl : bytes   SwaggerUIOpts.OAuthCallbackURL ("" = derived)  *)
 (*        hasnext  : BOOLEAN a next handler is installed (standalone kinds) *)
@@ -194,6 +194,11 @@ SpecURLPath(su) ==
     [] su.kind = "relative" -> Concat(su.dirs \o <<su.doc>>)
     [] OTHER                -> JoinSegs(su.dirs) \o <<SLASH>> \o su.doc        \* abspath, absurl
 
+(* the SpecURL option as text: what WithUISpecURL is given and the page must reference *)
+SpecURLText(su) ==
+  (IF su.kind = "absurl" THEN <<104,116,116,112,115,58,47,47>> \o su.host ELSE <<>>)      \* "https://" host
+  \o SpecURLPath(su) \o (IF su.query = <<>> THEN <<>> ELSE <<63>> \o su.query)
+
 (* Spec(basePath, b, next, WithSpecPath(p), WithSpecDocument(d))            *)
 SpecDocPathOf(basePath, optPath, optDoc) ==
   Join(<<IF basePath = <<>> THEN <<SLASH>> ELSE basePath, optPath, IF optDoc = <<>> THEN SwaggerDoc ELSE optDoc>>)
@@ -279,6 +284,10 @@ WhoAgrees(cfg, urlpath) == (IsAPI(cfg) => SpecLocationClaimed(cfg)) => Serve(cfg
 
 (* model-level: escaping is sound and loses nothing *)
 PageOK(cfg, name, value) == SlotOK(SlotCtx(cfg, name), value, RenderSlot(cfg, name, value))
+
+(* trace level: where the statement makes no claim about the spec location of an API handler (relative
+   or document-less SpecURL) the code's own route is accepted *)
+WhoTV(cfg, urlpath) == IF IsAPI(cfg) /\ ~SpecLocationClaimed(cfg) THEN Serve(cfg, urlpath) ELSE Who(cfg, urlpath)
 
 (* the full path of an operation of an api-* configuration *)
 OpPath(cfg, i) == Join(<<WithUIBasePath(cfg.base), cfg.ops[i]>>)
